@@ -125,7 +125,7 @@ func c17Run(u *c17U, ts []rdf.Triple, o rdfdescription.ExportResourceOptions) (i
 	for _, t := range rl.NewTriples() {
 		b = append(b, nb.Triple(t))
 	}
-	if ok, why := hx.Iso(a, b); !ok {
+	if why := hx.IsoWhy(a, b); why != "" {
 		oracle = fmt.Sprintf("flattened export is not isomorphic to the input (%d triples in, %d out): %s", len(a), len(b), why)
 	}
 	return
@@ -204,6 +204,31 @@ func c17Graph(r *hx.Rand, n int, out *hx.Out, _ []string) {
 	}
 	for c := 0; c < n; c++ {
 		rr := r.Fork()
+		if c%20 == 19 { // deep structures: long chains / lists / long cycles of singly referenced nodes, with a few extras
+			nb := 10 + rr.Intn(50)
+			u := c17Universe(nb)
+			var ts []rdf.Triple
+			shape := rr.Intn(3)
+			if shape != 2 {
+				ts = append(ts, rdf.Triple{Subject: u.iris[0], Predicate: u.iris[0], Object: u.blanks[0]})
+			}
+			for i := 0; i+1 < nb; i++ {
+				ts = append(ts, rdf.Triple{Subject: u.blanks[i], Predicate: u.iris[1], Object: u.blanks[i+1]})
+				if shape == 1 {
+					ts = append(ts, rdf.Triple{Subject: u.blanks[i], Predicate: u.iris[0], Object: hx.Pick(rr, u.lits)})
+				}
+			}
+			if shape == 2 { // close the cycle
+				ts = append(ts, rdf.Triple{Subject: u.blanks[nb-1], Predicate: u.iris[1], Object: u.blanks[0]})
+			} else {
+				ts = append(ts, rdf.Triple{Subject: u.blanks[nb-1], Predicate: u.iris[1], Object: u.iris[2]})
+			}
+			for i, k := 0, rr.Intn(3); i < k; i++ {
+				ts = append(ts, u.genTriple(rr, nb, 5))
+			}
+			c17Emit(out, u, ts, rr.Intn(4), fmt.Sprintf("deep shape=%d", shape))
+			continue
+		}
 		nb := 1 + rr.Intn(6)
 		u := c17Universe(nb)
 		nt := 1 + rr.Intn(12)
@@ -324,7 +349,7 @@ func c17Dataset(r *hx.Rand, n int, out *hx.Out, _ []string) {
 			for _, q := range qs {
 				want = append(want, na.Quad(q))
 			}
-			if ok, why := hx.Iso(want, got); !ok {
+			if why := hx.IsoWhy(want, got); why != "" {
 				oracle = fmt.Sprintf("flattened dataset export is not isomorphic to the input (%d quads in, %d out): %s", len(want), len(got), why)
 			}
 			return strings.Join(strs, ";"), oracle
